@@ -237,3 +237,36 @@ def dcd_rewind(ctx, case):
         ctx.ensure("file-repositioned-to-the-start-before-the-header-is-parsed", bool(events) and events[0] == ("seek", 0, 0) and "read_dcdheader" in events)
     else:
         ctx.ensure("error-is-reported", out.value == -1)
+
+
+# skip_dcdstep: every seek / stride / load_frame on a DCD file skips frames with it.  The number of bytes it skips must be the
+# size of one frame of the DCD format for the file's flags (from the format description, not from read_dcdstep's code):
+#   a Fortran record = marker + payload + marker, marker = 4 bytes (8 with 64-bit record markers);
+#   [CHARMM and extra block: one record of 48 bytes (unit cell)]  X, Y, Z: one record of 4*(natoms - nfixed) bytes each
+#   [CHARMM and 4 dimensions: a fourth record of the same size]
+FLAGS = [(ch, d4, ex, r64) for ch in (0, 1) for d4 in (0, 1) for ex in (0, 1) for r64 in (0, 1)]
+
+
+@contract("C18", "mdtraj/formats/dcd/src/dcdplugin.c", "skip_dcdstep", lang="c", cases=FLAGS, replay="cursor:dcd", covers=["skipped"])
+def skip_dcdstep(ctx, case):
+    ch, d4, exb, r64 = case
+    c = ctx.load_c("mdtraj/formats/dcd/src/dcdplugin.c", ["skip_dcdstep"], include=("mdtraj/formats/dcd/include", "mdtraj/formats/dcd/src"))
+    natoms, nfixed = ctx.int("natoms"), ctx.int("nfixed")
+    ctx.assume(natoms >= 1, nfixed >= 0, nfixed < natoms)
+    seeks = []
+    c.call_models["fio_fseek"] = lambda i, a: seeks.append((a[1], a[2])) or 0
+    flags = ch * 0x01 + d4 * 0x02 + exb * 0x04 + r64 * 0x08
+    out = ctx.ccall("skip_dcdstep", "fd", natoms, nfixed, flags)
+    ctx.ensure("returns-normally", out.exc is None)
+    ctx.cover("skipped")
+    ctx.ensure("one-relative-seek", len(seeks) == 1)
+    if len(seeks) != 1:
+        return
+    marker = 8 if r64 else 4
+    rec = lambda payload: marker + payload + marker
+    coord = rec(4 * (core.term(natoms) - core.term(nfixed)))
+    want = 3 * coord + (rec(48) if (ch and exb) else 0) + (coord if (ch and d4) else 0)
+    ctx.ensure("bytes-skipped=size-of-one-frame-for-these-flags", core.term(seeks[0][0]) == want)
+    whence = seeks[0][1]
+    ctx.ensure("seek-is-relative-to-the-current-position", isinstance(whence, int) and whence == 1 or str(whence).endswith("FIO_SEEK_CUR") or whence == ("enum", "FIO_SEEK_CUR"))
+    ctx.ensure("returns-success", out.value == 0)
